@@ -414,6 +414,19 @@ func (e *Env) ident(name string) (tv, error) {
 		e.g.notes = append(e.g.notes, fmt.Sprintf("invariant identifier %q re-bound to the only unnamed loop-carried value", name))
 		return e.spare[0], nil
 	}
+	if len(e.spare) > 1 {
+		// several unnamed loop-carried values: a renamed counter is the only integer among them
+		var ints []tv
+		for _, v := range e.spare {
+			if e.sortOfS(v.ty) == "Int" {
+				ints = append(ints, v)
+			}
+		}
+		if len(ints) == 1 {
+			e.g.notes = append(e.g.notes, fmt.Sprintf("invariant identifier %q re-bound to the only unnamed integer loop-carried value", name))
+			return ints[0], nil
+		}
+	}
 	return tv{}, fmt.Errorf("unknown identifier %q", name)
 }
 
@@ -1249,10 +1262,17 @@ func (g *Gen) loopEnv(li *loopInfo, st *State, phiVals map[*ssa.Phi]string) *Env
 				used[t.val] = true
 			}
 		}
-		for _, ins := range h.Instrs {
-			if phi, ok := ins.(*ssa.Phi); ok && phi.Comment != "rangeindex" && phi.Comment != "" && !used[phi.Comment] {
-				if v, ok := e.vars[phi.Comment]; ok {
-					e.spare = append(e.spare, v)
+		// loop-carried named values of this loop and of the enclosing ones that no invariant of this loop names
+		hbs := []*ssa.BasicBlock{h}
+		for _, p := range chain {
+			hbs = append(hbs, p.header)
+		}
+		for _, hb := range hbs {
+			for _, ins := range hb.Instrs {
+				if phi, ok := ins.(*ssa.Phi); ok && phi.Comment != "rangeindex" && phi.Comment != "" && !used[phi.Comment] {
+					if v, ok := e.vars[phi.Comment]; ok {
+						e.spare = append(e.spare, v)
+					}
 				}
 			}
 		}
